@@ -16,16 +16,19 @@ TEXTS = {
             "text": "Decides necessary constants/shapes only: Jaccard gate accepts 1/2, length and DL gates accept 0, "
                     "gram iterator starts at width 1, index writer/reader share one gram generator, candidate cap >= limit, "
                     "record side clipped to the typed length for an unfinished word. A violated obligation names the "
-                    "gate/constructor and the prefix query that is lost; stemmer/scan-order behaviour is not decided.",
+                    "gate/constructor and the prefix query that is lost; stemmer/scan-order behaviour is not decided."
+                    " Also: scratch state of the index and the matcher is reset before it is read (R03.h) and the Jaccard pre-filter compares deduplicated sets (R03.i).",
             "note": NOTE},
     "C04": {"technique": "static analysis: gate/cost constants by data-flow role in MIR, worst-case obligations in IEEE doubles, region-wise symbolic evaluation of the length-gate formula (A11)",
             "text": "Decides necessary constants only (n=5 worst cases): length gate accepts 1-5/6, Jaccard gate accepts 1/2, "
                     "DL gate accepts c/5 for every edit-cost constant c, all costs <= 1, tolerance of prefix-pair lengths >= 1; "
-                    "gate shapes are confirmed first (fail closed). The DP itself and the shared-gram argument are not decided.",
+                    "gate shapes are confirmed first (fail closed). The DP itself and the shared-gram argument are not decided."
+                    " Also: reset-before-read of scratch state (R04.j) and the last-occurrence look-up of the transposition (R04.k).",
             "note": NOTE},
     "C05": {"technique": "static analysis: integer gate |qslice-rslice| located by data-flow, polarity from CFG reachability of new_pair",
             "text": "Decides one clause: the prefix-pair length tolerance is <= 1, so a highlighted span cannot exceed the "
-                    "typed stretch by more than one character. The 'no unrelated hits' and exact-prefix clauses are not decided.",
+                    "typed stretch by more than one character. The 'no unrelated hits' and exact-prefix clauses are not decided."
+                    " Also (R05.e): the drawn span is [word.slice.0 + subslice.0, word.slice.0 + subslice.1) of the word the match belongs to.",
             "note": NOTE},
     "C14": {"technique": "static analysis: gate constants and per-class cost table read from MIR (match arms), class fallback decided as a decision table by abstract interpretation (A13), region-wise length-gate formula (A11)",
             "text": "Decides necessary constants/shapes only (L=3 worst case): length gate accepts 1/4, cost(NotAlpha)/4 passes the "
@@ -49,13 +52,15 @@ TEXTS = {
     "C11": {"technique": "static analysis: constant tables bound to their consumer by data-flow, cross-checked entry by entry against Unicode (unicodedata); builder-chain order",
             "text": "Decides table and order clauses for all six languages: composition entries are NFD pair -> NFC letter, every "
                     "reducible letter is composable, case closure, reduction fixpoint, keys fit the normalisation window, "
-                    "normalize first and lower before pos/stem in both tokenisers. Interaction with the stemmers is not decided.",
+                    "normalize first and lower before pos/stem in both tokenisers. Interaction with the stemmers is not decided."
+                    " Also: lower-casing precedes the character-class look-up (R11.f) and the split/strip fin-flag and slice arithmetic are unaffected by leading separators (R11.l).",
             "note": NOTE + " Oracle: Python unicodedata."},
     "C15": {"technique": "static analysis: builder-chain extraction from MIR, sibling agreement of the two tokenisers, post-dominance of renumber loops, assignment grouping",
             "text": "Decides pipeline-shape clauses: stage order, query/record agreement incl. split/strip class sets, renumber after "
                     "every mutation of the word list, drop-empty after strip, classes resized to chars.len(), normalize updates "
                     "source/chars/slice together, reductions never shrink with padding = len(norm)-len(orig), fin/slice formulas "
-                    "of split and strip. Stem range and scanning loops are not decided.",
+                    "of split and strip. Stem range and scanning loops are not decided."
+                    " Also (R15.m): Lang::unicode_reduce keeps the padded original and the reduced text equally long (symbolic loop invariant).",
             "note": NOTE},
     "C17": {"technique": "static analysis: event-order/dominance rule on the two buffers, abstract walk of the empty-case switches, reset-before-read",
             "text": "Decides structural clauses: both buffers are whole-overwritten from the two different inputs, sorted and "
@@ -73,7 +78,8 @@ TEXTS = {
                     "addresses all registries with its own first parameter, the result buffer is cleared before refill, written "
                     "only by the search runner, and filled with store X's hits for the query tokenised in X's language; API "
                     "functions forward parameters positionally. Per-id equality with a stand-alone store as a runtime value is "
-                    "not decided.",
+                    "not decided."
+                    " Also (R20.i): scratch buffers shared by all ids (thread-locals) and per-store scratch are reset before they are read.",
             "note": NOTE},
     "C06": {"technique": "static analysis: typestate/dominance rules on the bounded selection's buffer events, provenance of limit and positions, transitive write effects on the per-record path",
             "text": "Decides structural clauses: truncate(limit) only directly after a sort, final sort->truncate->reverse before the "
@@ -85,7 +91,8 @@ TEXTS = {
             "text": "Decides structural clauses: all comparators handed to selections are lexicographic compositions of Ord::cmp on the "
                     "same integer projection of both arguments (total pre-orders); insertion position is never read on the ranking "
                     "path; the rating is a score component written once; selection forwards argument order. Order equality across "
-                    "permutations as a runtime value is not decided.",
+                    "permutations as a runtime value is not decided."
+                    " Also (R07.d): the memoised empty-query ranking is reset on every path that changes records or limit.",
             "note": NOTE},
     "C08": {"technique": "static analysis: score-slot table from MIR (variant discriminants vs writer functions), sign/direction extraction, confinement of the rating, enum-arm tables",
             "text": "Decides structural clauses: each match-quality component is ranked before the rating, directions/signs as "
